@@ -12,7 +12,7 @@ import numpy as np
 import z3
 
 from pyvc import sym
-from pyvc.sym import lift, SComplex, cfrac_eq
+from pyvc.sym import lift, SComplex, cfrac_eq, frac_eq
 from pyvc.interp import PyRaise
 from pyvc.oblig import obligation, verify, bounded, exhaustive, Goal, merge
 from .common import stable_rng, quick
@@ -197,6 +197,23 @@ def _poly_member(v, p):
     if np.min(np.abs(cr)) < 1e-9 * scale * scale:
         return None
     return bool(np.all(cr > 0) or np.all(cr < 0))
+
+
+def _polygon_member(v, p):
+    """even-odd ray casting for an arbitrary simple polygon (concave outlines of 3-sector cells); None within 1e-9 of an edge"""
+    v = np.asarray(v)
+    scale = np.abs(v - v.mean()).max()
+    if _on_boundary(v, p, 1e-9 * scale):
+        return None
+    x, y = p.real, p.imag
+    cnt = 0
+    for i in range(len(v)):
+        a, b = v[i], v[(i + 1) % len(v)]
+        if (a.imag > y) != (b.imag > y):
+            xi = a.real + (y - a.imag) * (b.real - a.real) / (b.imag - a.imag)
+            if xi > x:
+                cnt += 1
+    return cnt % 2 == 1
 
 
 def _on_boundary(v, p, tol):
@@ -425,6 +442,68 @@ def ob_cell3sec_setters(first):
             return goals
         return verify(body, check_side=False, timeout_ms=60000)
     return merge([one(sq) for sq in seqs])
+
+
+@obligation("cluster/distance_matrices_are_euclidean", params=[{"type": t} for t in ("simple", "square")], timeout=300,
+            desc="Cluster of 2 (hexagon) / 4 (square) cells at an ARBITRARY symbolic cluster position (radius 2) and users at ARBITRARY "
+                 "symbolic positions (associated with their cells): both calc_dist_all_users_to_each_cell and the no-wrap-around variant "
+                 "return a (users x cells) matrix whose entry (i, j) is non-negative with square exactly |u_i - c_j|^2 for the CURRENT cell "
+                 "centres - for every position, near or far from the origin; also after a cell was moved")
+def ob_cluster_distances(type):
+    def body(c, it):
+        from pyphysim.cell import cell as cm
+        p = c.var("p", "complex")
+        n = 2 if type == "simple" else 4
+        cl = it.call(cm.Cluster, [lift(2), n, p, None, type, 0.0])          # any translation p of a cluster of radius 2
+        cells = it.getattr(cl, "_cells")
+        users = []
+        for k in (0, n - 1):
+            u = it.call(cm.Node, [c.var("u%d" % k, "complex")])
+            it.call(cm.AccessPoint.add_user, [cells[k], u])          # association only: where the user sits is arbitrary
+            users.append(u)
+        goals = []
+        for step in ("as built", "after moving a cell"):
+            if step != "as built":
+                it.setattr(cells[0], "pos", c.var("q", "complex"))          # its user travels with it
+            upos = [sym.to_complex(it.getattr(u, "pos")) for u in users]
+            cpos = [sym.to_complex(it.getattr(x, "pos")) for x in cells]
+            for meth in ("calc_dist_all_users_to_each_cell", "calc_dist_all_users_to_each_cell_no_wrap_around"):
+                M = np.asarray(it.call(it.getattr(cl, meth), []), dtype=object)
+                goals.append(Goal("[%s] %s: shape (users, cells)" % (step, meth), M.shape == (len(users), n)))
+                if M.shape != (len(users), n):
+                    continue
+                conj, nonneg = [], []
+                for i in range(len(users)):
+                    for j in range(n):
+                        d = upos[i] - cpos[j]
+                        m = lift(M[i, j]).to_real() if hasattr(lift(M[i, j]), "to_real") else lift(M[i, j])
+                        conj.append(frac_eq(m * m, d.re * d.re + d.im * d.im).t)
+                        # non-negative by construction: the entry is the principal square root (the modulus) of that square
+                        nonneg.append(z3.BoolVal(z3.is_app(m.t) and m.t.decl().name().startswith("sqrt")))
+                goals.append(Goal("[%s] %s: every entry squared == |u_i - c_j|^2 for the current cell centres" % (step, meth), sym.SBool(z3.And(conj))))
+                goals.append(Goal("[%s] %s: every entry is a principal square root (hence >= 0)" % (step, meth), sym.SBool(z3.And(nonneg))))
+        return goals
+
+    def rp(mv):
+        from pyphysim.cell import cell as cm
+        try:
+            rr = np.random.RandomState(3)
+            for pos, rad in ((0j, 1.0), (448251 + 5411932j, 500.0), (-3e6 + 2e6j, 50.0)):
+                np.random.seed(7)
+                cl = cm.Cluster(rad, 3 if type == "simple" else 4, pos, None, type, 20.0)
+                cl.add_random_users(None, 5)
+                U = np.array([u.pos for u in cl.get_all_users()])
+                P = np.array([x.pos for x in cl])
+                want = np.abs(U.reshape(-1, 1) - P.reshape(1, -1))
+                for meth in ("calc_dist_all_users_to_each_cell", "calc_dist_all_users_to_each_cell_no_wrap_around"):
+                    M = getattr(cl, meth)()
+                    if M.shape != want.shape or (not (np.abs(M - want).max() <= 1e-9 * rad + 1e-12 * abs(pos))):
+                        return {"confirmed": True, "cluster position": str(pos), "cell radius": rad, "method": meth,
+                                "max |matrix - Euclidean distance|": float(np.abs(M - want).max()) if M.shape == want.shape else "shape"}
+            return {"confirmed": False, "note": "real distance matrices are Euclidean near and far from the origin"}
+        except Exception as e:
+            return {"confirmed": False, "error": "replay crashed: %r" % (e,)}
+    return verify(body, check_side=False, timeout_ms=60000, replay=rp)
 
 
 @obligation("hexagon/vertices_regular_and_rigid",
@@ -661,21 +740,21 @@ def ob_native_wrap():
 
     def gen():
         for i in range(40 if quick() else 400):
-            yield {"seed": int(r.randint(1 << 30)), "kind": ["hex", "square", "hex"][i % 3]}
+            yield {"seed": int(r.randint(1 << 30)), "kind": ["hex", "square", "3sec"][i % 3]}
 
     def check(case):
         rr = np.random.RandomState(case["seed"])
         pos = complex(rr.uniform(-5, 5), rr.uniform(-5, 5))
         rad = float(10 ** rr.uniform(-0.5, 1))
         rot = float(rr.choice([0, 30, 45, -17.5]))
-        orig = cm.Cell(pos, rad, 1, rot) if case["kind"] == "hex" else cm.CellSquare(pos, rad, 1, rot)
+        orig = {"hex": cm.Cell, "square": cm.CellSquare, "3sec": cm.Cell3Sec}[case["kind"]](pos, rad, 1, rot)
         w = cm.CellWrap(complex(rr.uniform(-30, 30), rr.uniform(-30, 30)), orig)
         for step in range(4):
             v = np.asarray(w.vertices)
             ext = 2.5 * max(abs(v - w.pos))
             for _ in range(60):
                 p = w.pos + complex(rr.uniform(-ext, ext), rr.uniform(-ext, ext))
-                m = _poly_member(v, p)
+                m = _polygon_member(v, p) if case["kind"] == "3sec" else _poly_member(v, p)      # the 3-sector outline is concave
                 if m is None:
                     continue
                 got = bool(w.is_point_inside_shape(p))
@@ -770,6 +849,38 @@ def ob_native_cluster():
             except Exception:
                 pass
     return res
+
+
+@obligation("native/distance_matrices_far_from_origin", kind="bounded",
+            desc="binary64: clusters in map coordinates (cluster position up to 5e6 with cells of 50 .. 500) and near the origin, hexagon / "
+                 "square / 3-sector cells: both user-to-cell distance matrices equal |u - c| computed from the current positions within "
+                 "1e-9 * cell radius + 1e-12 * |position| (a formula that is algebraically the same but cancels - |u|^2 + |c|^2 - 2 u.c - loses "
+                 "all accuracy there; the ideal-real proof is blind to it by design)")
+def ob_native_far_distances():
+    from pyphysim.cell import cell as cm
+    r = stable_rng("C19far")
+
+    def gen():
+        for i in range(24 if quick() else 240):
+            yield {"seed": int(r.randint(1 << 30)), "type": ["simple", "square", "3sec"][i % 3], "n": [3, 4, 7][i % 3] if i % 3 != 1 else 4,
+                   "pos": [0j, 448251 + 5411932j, -3e6 + 2e6j, 1e4 - 5e6j][(i // 3) % 4], "rad": [1.0, 500.0, 50.0, 200.0][(i // 3) % 4]}
+
+    def check(case):
+        rr = np.random.RandomState(case["seed"])
+        np.random.seed(case["seed"] % (2 ** 31))
+        pos, rad = case["pos"], case["rad"]
+        cl = cm.Cluster(rad, case["n"], pos, None, case["type"], float(rr.choice([0.0, 20.0, -35.0])))
+        cl.add_random_users(None, 4)
+        U = np.array([u.pos for u in cl.get_all_users()])
+        P = np.array([x.pos for x in cl])
+        want = np.abs(U.reshape(-1, 1) - P.reshape(1, -1))
+        for meth in ("calc_dist_all_users_to_each_cell", "calc_dist_all_users_to_each_cell_no_wrap_around"):
+            M = getattr(cl, meth)()
+            if M.shape != want.shape or (not (np.abs(M - want).max() <= 1e-9 * rad + 1e-12 * abs(pos))):
+                return {"cluster position": str(pos), "cell radius": rad, "method": meth,
+                        "max |matrix - Euclidean distance|": float(np.abs(M - want).max()) if M.shape == want.shape else "shape"}
+        return None
+    return bounded(gen(), check)
 
 
 @obligation("native/rectangle_non_square_border_point", kind="bounded",
